@@ -450,13 +450,15 @@ def k1e(cx):
         I.builtins["isinstance"] = Builtin("isinstance", lambda v, c: True if (isinstance(v, Obj) and v.kind == "cpu-context" and c is CCpu) else I._isinstance(v, c))
         return L, I, me, rec
 
-    DT = {"float64": ("double", 8), "int32": ("int32_t", 4)}
-    # ---- numpy arrays
-    for shape_kind, native, arrdt in [(sk, nat, "float64") for sk in ("1-d", "2-d", "0-d") for nat in (True, False)] + [("1-d", True, "int32")]:
+    DT = {"float64": ("double", 8), "int32": ("int32_t", 4), "bool": (None, 1), "complex128": (None, 16), "float16": (None, 2)}
+    STR = {"float64": "f8", "int32": "i4", "bool": "b1", "complex128": "c16", "float16": "f2"}
+    # ---- numpy arrays  (the last three element types have no C counterpart in the documented table: they must be
+    # refused, not handed over as raw memory -- seeded C17-f; `dtype2ctype` and its table are the CURRENT source's)
+    for shape_kind, native, arrdt in [(sk, nat, "float64") for sk in ("1-d", "2-d", "0-d") for nat in (True, False)] + [("1-d", True, "int32")] + [("1-d", True, f_) for f_ in ("bool", "complex128", "float16")]:
         if True:
             L, I, me, rec = world("ndarray")
             nd = {"1-d": 1, "2-d": 2, "0-d": 0}[shape_kind]
-            dt = Obj("dtype", {"name": arrdt, "itemsize": DT[arrdt][1], "isnative": native, "str": ("<" if native else ">") + ("f8" if arrdt == "float64" else "i4"), "byteorder": "=" if native else ">"}, name="dtype")
+            dt = Obj("dtype", {"name": arrdt, "itemsize": DT[arrdt][1], "isnative": native, "str": ("<" if native else ">") + STR[arrdt], "byteorder": "=" if native else ">"}, name="dtype")
 
             def mkarr(tag, ndim, origin=None, is_view=False, scalar=False):
                 a = Obj("ndarray", {"dtype": dt, "ndim": ndim}, name=tag)
@@ -484,13 +486,16 @@ def k1e(cx):
             I.np = Namespace("np", dict(I.np.table, ascontiguousarray=Builtin("np.ascontiguousarray", lambda a, *r, **k: mkarr(f"ascontiguousarray({a.name})", max(a.attrs["ndim"], 1), origin=a, is_view=False)),
                                         array=Builtin("np.array", lambda a, *r, **k: mkarr(f"np.array({a.name})", a.attrs["ndim"], origin=a, is_view=False)),
                                         asarray=Builtin("np.asarray", lambda a, *r, **k: a)))
-            I.modglobals.setdefault("context_cpu", {})["dtype2ctype"] = Builtin("dtype2ctype", lambda d: DT[I.getattr(d, "name")][0])
             arg = Obj("instance", {"pointer": True, "atype": Obj("scalar", {"_dtype": dt, "_c_type": "double"}, name="Float64"), "name": "p"}, name="arg")
             res = I.explore(lambda: I.call(I.getattr(me, "to_function_arg"), [arg, arr], {}), max_paths=8)
             cx.recog(len(res) == 1, fn, f"to_function_arg(numpy {shape_kind}): {len(res)} paths")
             r = res[0]
             n += 1
             label = f"double* argument <- {shape_kind} numpy {arrdt} array, {'native' if native else 'NON-native'} byte order"
+            if DT[arrdt][0] is None:
+                cx.check(r["exc"] is not None, None, construct=f"double* argument <- 1-d numpy {arrdt} array", detail="refused: the element type has no entry in the dtype -> C type table",
+                         bad_detail=f"accepted as {r['result'][1] if r['exc'] is None and isinstance(r['result'], tuple) else r['result'] if r['exc'] is None else ''}: the kernel reads {arrdt} elements as doubles", anchor="context_cpu::dtype2ctype", sub="ndarray.foreign")
+                continue
             want_ty = DT[arrdt][0] + "*"
             if not native:
                 cx.check(r["exc"] is not None, None, construct=label, detail="refused (the element type the kernel declares is the native one)",
